@@ -171,7 +171,7 @@ def _verdict(fm: Any, root: R.Node) -> Any:
 
 
 def run_shard(ctx: Any) -> None:
-    n = 25 if ctx.tier == "quick" else 600
+    n = 15 if ctx.tier == "quick" else 600
 
     @given(cases())
     def test(case: dict[str, Any]) -> None:
